@@ -2,6 +2,7 @@
 C13 — Token hold time is honoured (station level).
 -/
 import ProfiVerif.Model.Station
+import ProfiVerif.Lemmas.StationMark
 
 namespace PV.C13
 open PV
@@ -47,7 +48,7 @@ theorem cycles_before_deadline (c : Ctx) (now : Int) (d : UseData) (fcd : Bool) 
       let c1 := { c with s := (waitSyncPause (holdUpdate c.s d) now).1 }
       if now < (holdUpdate c.s d).endTokenHoldTime then useTokenGo c1 now d false
       else if fcd = false then useTokenGo c1 now d true
-      else .ok { c1 with s := { c1.s with st := .passToken true .first } } := by
+      else passNow c1 now := by
   have hk := wait_keeps (holdUpdate c.s d) now
   have hs := hold_keeps_st c.s d
   unfold doUseToken
@@ -58,17 +59,36 @@ theorem cycles_before_deadline (c : Ctx) (now : Int) (d : UseData) (fcd : Bool) 
   · cases fcd with
     | false => simp [h1]
     | true =>
-      simp [h1, tr, toPassToken, hk.1, hk.2, hs, hst]
+      simp [h1]
+
+/-- The end of a token hold (`passNow`: transition to `PassToken` and `do_pass_token` in the same poll)
+asks no application. -/
+theorem passNow_no_calls (c : Ctx) (now : Int) (c' : Ctx) (h : passNow c now = .ok c') : c'.calls = c.calls := by
+  unfold passNow at h
+  cases htr : tr c (fun s => toPassToken s true .first) "transition_pass_token" with
+  | panic s => rw [htr] at h; cases h
+  | ok c1 =>
+    rw [htr] at h
+    simp only [Res.bind] at h
+    obtain ⟨s', _, rfl⟩ := tr_cases _ _ _ _ htr
+    have := doPassToken_calls _ now c' h
+    exact this
 
 /-- `pass_after_deadline`: once the deadline has passed and the one guaranteed message cycle of this
-visit is done, the station asks no application and moves to `PassToken` (with GAP maintenance). -/
+visit is done, the station asks no application and passes the token on — since the repair of finding
+K3 in the same poll (`passNow`). -/
 theorem pass_after_deadline (c : Ctx) (now : Int) (d : UseData) (hst : c.s.st = .useToken d true)
     (hw : (waitSyncPause (holdUpdate c.s d) now).2 = false)
     (hdl : ¬ now < (holdUpdate c.s d).endTokenHoldTime) :
-    doUseToken c now =
-      .ok { c with s := { (waitSyncPause (holdUpdate c.s d) now).1 with st := .passToken true .first } } := by
-  rw [cycles_before_deadline c now d true hst hw]
-  simp [hdl]
+    doUseToken c now = passNow { c with s := (waitSyncPause (holdUpdate c.s d) now).1 } now ∧
+    ∀ c', doUseToken c now = .ok c' → c'.calls = c.calls := by
+  have h1 : doUseToken c now = passNow { c with s := (waitSyncPause (holdUpdate c.s d) now).1 } now := by
+    rw [cycles_before_deadline c now d true hst hw]
+    simp [hdl]
+  refine ⟨h1, fun c' h => ?_⟩
+  rw [h1] at h
+  have := passNow_no_calls _ now c' h
+  exact this
 
 /-- Asking one application appends exactly one `transmit_telegram` record with the given flag. -/
 theorem appTransmit_calls (c : Ctx) (now : Int) (hp : Bool) (c1 : Ctx) (b1 : Bool)
